@@ -20,6 +20,8 @@ import EaselModel.Alphabet.History2Lemmas
 import EaselModel.Alphabet.GuessCutoffLemmas
 import EaselModel.Alphabet.SqCopyLemmas
 import EaselModel.Alphabet.MatchLemmas
+import EaselModel.Alphabet.FetchLemmas
+import EaselModel.Alphabet.GetAllocLemmas
 /-! # C08 — property theorems (statements + glue only; lemmas live in Alphabet/*.lean)
 
 `G.dna`, `G.rna`, `G.amino`, `G.coins`, `G.dice` are the tables dumped from the code under check on this run
@@ -753,6 +755,55 @@ example :
     Sq.sqCopy true (G.dna.setIgnored (str " \t")) (.inl (str "ACGTACGT")) true true =
       some (.ok (.ok, { n := 8, buf := mkDsq [0, 1, 2, 3, 0, 1, 2, 3] })) := by
   decide +kernel
+
+/-! ## round 4: `esl_sq_FetchFromMSA` — dealigning a row in text mode and in digital mode -/
+
+/-- **fetching a sequence from an alignment commutes with digitising**, for every alphabet that reads exactly the gap
+    characters "-_.~" as gap / missing data (`Sq.GapCharsOK`: true of the five built-in alphabets), every aligned row of
+    characters of the alphabet and every SS line of the same length: text mode (`esl_strdealign` against "-_.~") keeps the row
+    without those columns; digital mode (`esl_abc_XDealign` / `esl_abc_CDealign` against gap and missing-data codes) keeps
+    the codes of exactly the same columns; digitising the text result gives the digital result — same `n`, same SS line;
+    the nonresidue `*` is kept in both modes -/
+theorem fetch_from_msa_modes_agree (a : Alphabet) (hg : Sq.GapCharsOK a) (hKp : a.Kp ≤ 250) (row ss : List Nat)
+    (hv : ∀ c ∈ row, a.cIsValid c = true) (hss : ss.length = row.length) :
+    Sq.fetchText row (some ss) =
+      some { seq := Sq.keptText row row, ss := some (Sq.keptText row ss), n := (Sq.keptText row row).length } ∧
+    Sq.fetchDigital a (mkDsq (row.map a.inmapAt)) (some ss) =
+      some { seq := mkDsq ((Sq.keptText row row).map a.inmapAt), ss := some (Sq.keptText row ss),
+             n := (Sq.keptText row row).length } ∧
+    a.digitize (Sq.keptText row row) = (.ok, mkDsq ((Sq.keptText row row).map a.inmapAt)) :=
+  Sq.fetch_modes_agree a hg hKp row ss hv hss
+
+/-- `esl_strdealign` alone, for any two strings: exactly the columns without a gap character are kept (no bound on bytes) -/
+theorem strdealign_spec (s aseq : List Nat) (hl : aseq.length ≤ s.length) :
+    Sq.strdealign s aseq = some (Sq.keptText aseq s, (Sq.keptText aseq s).length) :=
+  Sq.strdealign_spec s aseq hl
+
+theorem std_gapchars_ok :
+    Sq.GapCharsOK G.dna ∧ Sq.GapCharsOK G.rna ∧ Sq.GapCharsOK G.amino ∧ Sq.GapCharsOK G.coins ∧ Sq.GapCharsOK G.dice := by
+  decide +kernel
+
+example : Sq.fetchText (str "A-c.*~G_") (some (str "<.>.,.:.")) = some { seq := str "Ac*G", ss := some (str "<>,:"), n := 4 } ∧
+    Sq.fetchDigital G.dna (mkDsq [0, 4, 1, 4, 16, 17, 2, 4]) (some (str "<.>.,.:.")) =
+      some { seq := mkDsq [0, 1, 16, 2], ss := some (str "<>,:"), n := 4 } := by decide +kernel
+
+/-- the ss buffer of a reused `ESL_SQ` across `esl_sq_GetFromMSA` calls (`Sq.getAlloc`: `esl_sq_GrowTo` + first allocation +
+    `strcpy`): when a NULL `sq->ss` is allocated with `salloc` cells (the proposed repair,
+    `/var/tmp/fixes-proposed/C08-sq-getfrommsa-ss.patch`), NO history of calls — any widths, SS line present or absent in any
+    call, text (`extra = 1`) or digital (`extra = 2`) mode — copies past the buffer. The code as it stands allocates the exact
+    SS-line length (`exact = true`, what the driver mirrors): the `example` below is the overflow (10 columns, then 100, both
+    with an SS line), reproduced with ASan; the generator keeps away from that shape until the repair lands. -/
+theorem get_from_msa_ss_buffer_fixed (extra : Nat) (hist : List (Nat × Bool)) (st : Sq.SsAlloc) (h : Sq.SsInv st) :
+    (Sq.getAllocRun false extra st hist).isSome = true :=
+  Sq.getAllocRun_safe extra hist st h
+
+example : Sq.SsInv { salloc := 256, ssCap := none } := Or.inl rfl
+example : Sq.getAllocRun true 1 { salloc := 256, ssCap := none } [(10, true), (100, true)] = none ∧
+    Sq.getAllocRun true 2 { salloc := 256, ssCap := none } [(10, true), (100, true)] = none ∧
+    Sq.getAllocRun true 1 { salloc := 256, ssCap := none } [(10, true), (300, true), (20, false), (300, true)] =
+      some { salloc := 301, ssCap := some 301 } ∧
+    Sq.getAllocRun false 1 { salloc := 256, ssCap := none } [(10, true), (100, true)] = some { salloc := 256, ssCap := some 256 } := by
+  decide
 
 /-! ## round 4: more tables regenerated from the tree -/
 
